@@ -159,6 +159,30 @@ theorem klein_other_laws (u1 v1 u2 v2 : ℝ) (hu1 : 0 ≤ u1 ∧ u1 ≤ Real.pi)
   ⟨Seam.kleinDist_nonneg _ _ _ _ hu1 hu2 hv1 hv2, Seam.kleinDist_self _ _, Seam.kleinDist_symm _ _ _ _ hv1 hv2,
     by rw [Seam.maxExtent_klein]; exact Seam.kleinDist_le_extent _ _ _ _⟩
 
+/-- F19: the two in-bounds states `(u=0, v=0)` and `(u=π, v=-π)` are the same point of the Klein bottle (glued
+boundary): their distance is 0, yet `equalStates` (componentwise) says they differ — positivity fails. -/
+theorem klein_glued_points_distance_zero :
+    SpaceDist.dist (.klein : Space ℝ) (.ccons (.rv [0]) (.ccons (.so2 0) .cnil))
+      (.ccons (.rv [Real.pi]) (.ccons (.so2 (-Real.pi)) .cnil)) = 0 ∧
+    equalStates (.klein : Space ℝ) (.ccons (.rv [0]) (.ccons (.so2 0) .cnil))
+      (.ccons (.rv [Real.pi]) (.ccons (.so2 (-Real.pi)) .cnil)) = false := by
+  have hpi := Real.pi_pos
+  constructor
+  · simp only [SpaceDist.dist]
+    rw [Seam.kleinDist_r]
+    have h1 : ¬ (|Real.pi - 0| ≤ Real.pi / 2) := by
+      rw [sub_zero, abs_of_pos hpi]; linarith
+    rw [if_neg h1, if_neg (by linarith : ¬ (0 < -Real.pi))]
+    rw [Seam.so2Dist_r]
+    simp [abs_of_pos hpi, hpi.le]
+  · simp only [equalStates, Bool.and_eq_false_iff]
+    left
+    rw [rvEqual_cons]
+    have : (eps : ℝ) * 2 < |(0:ℝ) - Real.pi| := by
+      rw [zero_sub, abs_neg, abs_of_pos hpi, eps_real]
+      linarith [Real.pi_gt_three]
+    rw [if_pos this]
+
 /-- F12: on the sphere (real haversine formula) all states with φ = 0 are at distance 0 from each other although
 `equalStates` distinguishes them … -/
 theorem sphere_pole_distance_zero (r t1 t2 : ℝ) :
